@@ -262,6 +262,10 @@ func (cx *Ctx) runC15() {
 			k = r.between(2, 3)
 			o := spec.Options{P1: pick(&r, "", "dfs"), P4: pick(&r, "", "valign", "packright"), P5: pick(&r, "", "straight", "noop")}
 			calls = []spec.Call{{Edges: c15VeryWide(&r, "v"), Opts: o}}
+			if r.chance(50) {
+				// two very wide callers: both are above the threshold at the same time
+				calls = append(calls, spec.Call{Edges: c15VeryWide(&r, "w"), Opts: o})
+			}
 			for len(calls) < k {
 				w := cx.c15Calls(&r, 1)[0]
 				w.Opts = o
